@@ -154,6 +154,12 @@ def run_check(tier, seed):
         # separators: every 1-char string over ASCII + samples, lengths 0 and 2
         seps = []
         cands = [chr(c) for c in range(0, 128)] + ["é", "€", "ス", "", "--", "a-", "~~", "  "]
+        # every valid character followed / preceded by a line end, blank or NUL (what a settings file read
+        # without stripping yields), and all pairs of valid characters
+        valid1 = [chr(c) for c in range(33, 127) if chr(c).isalnum() or chr(c) in "-._+*:;~"]
+        for ch in valid1:
+            cands += [ch + "\n", "\n" + ch, ch + "\r", ch + " ", ch + "\x00", ch + "\r\n"]
+        cands += [a + b for a in "-._+*:;~aZ0" for b in "-._+*:;~aZ0"]
         for s in cands:
             trade = Trade("1.999", 1, 0, st)
             order = trade.create_order("BACK", LimitOrder(2.0, 2.0))
